@@ -127,6 +127,21 @@ second paragraph after a blank line */
         pub z: i32,
     }
     #[derive(TS)]
+    #[ts(export_to = "deps.ts")]
+    pub struct P1 { pub p: i32 }
+    #[derive(TS)]
+    #[ts(export_to = "deps.ts")]
+    pub struct P2 { pub p: i32 }
+    #[derive(TS)]
+    #[ts(export_to = "deps.ts")]
+    pub struct P3 { pub p: i32 }
+    #[derive(TS)]
+    #[ts(export_to = "views.ts")]
+    pub struct W1 { pub x: P2 }
+    #[derive(TS)]
+    #[ts(export_to = "views.ts")]
+    pub struct W2 { pub y: P1, pub z: P3 }
+    #[derive(TS)]
     pub struct C { pub a: A, pub b: Option<B> }
     #[derive(TS)]
     #[ts(export_to = "nested/dir/")]
@@ -141,7 +156,7 @@ fn export_step(kind: &str, ty: &str, dir: Option<&str>) -> Result<(), String> {
         "export_all_to" => <$t>::export_all_to(dir.unwrap()),
         _ => panic!("unknown step kind"),
     } } }
-    let r = match ty { "A" => go!(hist::A), "B" => go!(hist::B), "C" => go!(hist::C), "D" => go!(hist::D), "M" => go!(hist::M), "Z" => go!(hist::Z), _ => panic!("unknown type") };
+    let r = match ty { "A" => go!(hist::A), "B" => go!(hist::B), "C" => go!(hist::C), "D" => go!(hist::D), "M" => go!(hist::M), "Z" => go!(hist::Z), "W1" => go!(hist::W1), "W2" => go!(hist::W2), "P1" => go!(hist::P1), _ => panic!("unknown type") };
     r.map_err(|e| format!("{e:?}"))
 }
 
